@@ -143,7 +143,7 @@ class C20(Check):
                    'delete_if_exists default remove (bound at import) is '
                    'exercised with real files only']
     FAULT_KINDS = ('short_read', 'read_error', 'seek_error',
-                   'task_switch_at_io',
+                   'task_switch_at_io', 'size_metadata_disagrees',
                    'errno_on_makedirs', 'errno_on_remove', 'errno_on_write',
                    'errno_on_close', 'errno_on_mkstemp')
     PROBES = ('final_short_chunk', 'exact_multiple', 'empty_file',
@@ -229,7 +229,9 @@ class C20(Check):
                                 'errno': rng.choice((errno.EIO, errno.ESTALE,
                                                      errno.EINTR))}
                       if rng.random() < 0.12 else None,
-                      'real': rng.random() < 0.15})
+                      'real': rng.random() < 0.15,
+                      'stat_lies': rng.choice((None, None, None, 'zero',
+                                               'half', 'bigger'))})
         elif fn == 'last_bytes':
             size = rng.choice((0, 1, 2, 10, 100, 5000))
             n = rng.choice((0, 1, max(0, size - 1), size, size + 1,
@@ -260,7 +262,11 @@ class C20(Check):
                            ['makedirs', errno.EACCES]))})
         elif fn == 'ensure_tree':
             c.update({'state': rng.choice(('missing', 'dir', 'file',
-                                           'nested-missing', 'parent-file')),
+                                           'nested-missing', 'parent-file',
+                                           'dotdot-via-symlink',
+                                           'dotdot-via-symlink-exists',
+                                           'trailing-slash',
+                                           'dot-components')),
                       'errno': None, 'twice': rng.random() < 0.5})
         else:
             c.update({'state': rng.choice(('missing', 'file', 'dir',
@@ -274,7 +280,14 @@ class C20(Check):
         else:
             c['content_kind'] = core.weighted(krng, [(None, 6),
                                                      ('bytearray', 1),
-                                                     ('memoryview', 1)])
+                                                     ('memoryview', 1),
+                                                     ('array_I', 1),
+                                                     ('mv_cast_H', 1)])
+            if c['content_kind'] in ('array_I', 'mv_cast_H'):
+                # buffers whose items are wider than a byte: len() counts
+                # items, the file must hold every byte
+                c['content'][1] = krng.choice((0, 4, 1000, 70000, 300000,
+                                               600000))
             c['path_kind'] = core.weighted(krng, [(None, 6), ('pathlib', 2)])
         return c
 
@@ -337,8 +350,15 @@ class C20(Check):
         path = os.path.join(work, 'data.bin')
         # the file also exists for real, so that a tree which does not open
         # it through the module-global open() still reads the right content
+        lies = None if case.get('real') else case.get('stat_lies')
         with open(path, 'wb') as f:
-            f.write(data)
+            # stat_lies: what stat() says about the file is not what read()
+            # delivers (procfs reports size 0, a file grows while it is read):
+            # the real file behind fileno() has another length than the
+            # content the simulated file hands out
+            f.write(b'' if lies == 'zero' else data[:len(data) // 2]
+                    if lies == 'half' else data + data[:7] + b'x'
+                    if lies == 'bigger' else data)
         if case.get('real'):
             self.bump('probes', 'real_file_route')
         else:
@@ -377,6 +397,13 @@ class C20(Check):
             if case.get('short'):
                 self.bump('faults', 'short_read')
         log.add('checksum', case['alg'], ch, size, out, fired)
+        if lies and not files:
+            # the tree did not go through the open() seam: it has read the
+            # real file, whose content is deliberately different
+            self.bump('probes', 'open_seam_unavailable')
+            return ['seam-unavailable']
+        if lies:
+            self.bump('faults', 'size_metadata_disagrees')
         if out[0] == 'nonterminating':
             self.viol('checksum_does_not_terminate', chunk=ch, size=size)
         elif fired:
@@ -586,9 +613,18 @@ class C20(Check):
                 rec['closed'].clear()
                 try:
                     ck = case.get('content_kind')
-                    payload = (bytearray(data) if ck == 'bytearray' else
-                               memoryview(data) if ck == 'memoryview'
-                               else data)
+                    if ck == 'array_I':
+                        import array
+                        payload = array.array('I')
+                        payload.frombytes(data[:len(data) - len(data) % 4])
+                        data = payload.tobytes()
+                    elif ck == 'mv_cast_H':
+                        data = data[:len(data) - len(data) % 2]
+                        payload = memoryview(data).cast('H')
+                    else:
+                        payload = (bytearray(data) if ck == 'bytearray' else
+                                   memoryview(data) if ck == 'memoryview'
+                                   else data)
                     p = fu.write_to_tempfile(payload, path=as_kind(
                         d, case.get('path_kind')) if d else d,
                                              suffix=case['suffix'],
@@ -683,6 +719,20 @@ class C20(Check):
             p = os.path.join(work, 'pf', 'target')
         elif state == 'parent-missing':
             p = os.path.join(work, 'nope', 'target')
+        elif state in ('dotdot-via-symlink', 'dotdot-via-symlink-exists'):
+            # <symlink to a directory>/../target: the kernel resolves '..'
+            # against the link's target, not textually
+            os.makedirs(os.path.join(work, 'real', 'sub'))
+            os.symlink(os.path.join(work, 'real', 'sub'),
+                       os.path.join(work, 'link'))
+            if state.endswith('exists'):
+                os.makedirs(os.path.join(work, 'real', 'target'))
+            p = os.path.join(work, 'link', '..', 'target')
+        elif state == 'trailing-slash':
+            p = os.path.join(work, 'target') + '/'
+        elif state == 'dot-components':
+            os.makedirs(os.path.join(work, 'a'))
+            p = os.path.join(work, 'a', '.', 'b', '..', 'target')
         return p
 
     def _x_ensure_tree(self, case, work, rec, log):
@@ -717,7 +767,13 @@ class C20(Check):
                           got=list(outs[0]), want=list(want))
         else:
             st = case['state']
-            if st in ('missing', 'dir', 'nested-missing'):
+            if st in ('missing', 'dir', 'nested-missing',
+                      'dotdot-via-symlink', 'dotdot-via-symlink-exists',
+                      'trailing-slash'):
+                if st.startswith('dotdot') and sorted(os.listdir(work)) != \
+                        ['link', 'real']:
+                    self.viol('ensure_tree_created_elsewhere', state=st,
+                              entries=sorted(os.listdir(work)))
                 for o in outs:
                     if o != ('ok',):
                         self.viol('ensure_tree_failed', state=st,
@@ -726,6 +782,12 @@ class C20(Check):
                     self.viol('ensure_tree_did_not_create', state=st)
                 if st == 'dir':
                     self.bump('probes', 'EEXIST_on_dir')
+            elif st == 'dot-components':
+                # a/./b/../target with b missing: os.makedirs creates b on the
+                # way (documented confusion with '..'); all that is asserted
+                # is the outcome the statement names
+                if outs[0] == ('ok',) and not os.path.isdir(p):
+                    self.viol('ensure_tree_did_not_create', state=st)
             elif st == 'file':
                 self.bump('probes', 'EEXIST_on_file')
                 if outs[0][0] != 'oserror':
@@ -798,7 +860,7 @@ class C20(Check):
         return case['fn']
 
     def reducers(self, case):
-        for k in ('short', 'fault', 'seek_errno', 'twice', 'real',
+        for k in ('short', 'fault', 'seek_errno', 'twice', 'real', 'stat_lies',
                   'pre_files', 'default_args', 'rm_between'):
             if case.get(k):
                 c = copy.deepcopy(case)
